@@ -488,3 +488,120 @@ Definition conc_update_spec (M : machine) (sm : N) (pre : list op -> Prop) (kok 
    (the two in-memory machines; DiskKVTest commits the batch atomically, the views are "before" and "after") *)
 Definition update_prefix_defined (M : machine) : Prop :=
   forall st ents st' i, m_update M st ents = Some st' -> exists st'', m_update M st (firstn i ents) = Some st''.
+
+(** * Several outstanding snapshot contexts and images per machine
+
+    dragonboat may hold more than one context returned by PrepareSnapshot of one state machine and save them in
+    any order, with updates in between; the images may be installed in any order, too.  [sop]: the operations of
+    [op] with a slot number for contexts and images (context slot [sl] of replica [r] is saved into image slot [sl]
+    of replica [r]; KVTest has no PrepareSnapshot, [SSave] captures the live state).  As in [step], a recovery and
+    a restart drop the outstanding contexts of the replica. *)
+Inductive sop :=
+| SUpdate (r : N) (ents : list entry)
+| SLookup (r : N) (k : bytes)
+| SSync (r : N)
+| SPrepare (r sl : N)
+| SSave (r sl : N)
+| SRecover (r src sl : N)       (* r recovers from image slot sl of replica src *)
+| SReopen (r : N)
+| SHash (r : N).
+
+Definition set1 {A} (f : N -> A) (r : N) (x : A) : N -> A := fun r' => if r' =? r then x else f r'.
+Definition set2 {A} (f : N -> N -> A) (r sl : N) (x : A) : N -> N -> A :=
+  fun r' sl' => if (r' =? r) && (sl' =? sl) then x else f r' sl'.
+Definition clr {A} (f : N -> N -> option A) (r : N) : N -> N -> option A :=
+  fun r' sl' => if r' =? r then None else f r' sl'.
+
+Section Slots.
+Variable M : machine.
+
+Record sst := mkS { s_st : N -> m_st M; s_cx : N -> N -> option (m_ctx M); s_sn : N -> N -> option (m_snap M) }.
+Definition sst0 : sst := mkS (fun _ => m_init M) (fun _ _ => None) (fun _ _ => None).
+
+Definition sstep (x : sst) (o : sop) : option (sst * mobs M) :=
+  match o with
+  | SUpdate r ents =>
+    match m_update M (s_st x r) ents with
+    | Some st' => Some (mkS (set1 (s_st x) r st') (s_cx x) (s_sn x), MNone M)
+    | None => None
+    end
+  | SLookup r k => Some (x, MVal M (m_lookup M (s_st x r) k))
+  | SSync r =>
+    match m_sync M (s_st x r) with
+    | Some st' => Some (mkS (set1 (s_st x) r st') (s_cx x) (s_sn x), MNone M)
+    | None => None
+    end
+  | SPrepare r sl =>
+    if m_has_prepare M
+    then Some (mkS (s_st x) (set2 (s_cx x) r sl (Some (m_prepare M (s_st x r)))) (s_sn x), MNone M)
+    else None
+  | SSave r sl =>
+    let ctx := if m_has_prepare M then s_cx x r sl else Some (m_prepare M (s_st x r)) in
+    match ctx with
+    | Some c => Some (mkS (s_st x) (set2 (s_cx x) r sl None) (set2 (s_sn x) r sl (Some (m_save M (s_st x r) c))), MNone M)
+    | None => None
+    end
+  | SRecover r src sl =>
+    match s_sn x src sl with
+    | Some img =>
+      match m_recover M (s_st x r) img with
+      | Some st' => Some (mkS (set1 (s_st x) r st') (clr (s_cx x) r) (s_sn x), MNone M)
+      | None => None
+      end
+    | None => None
+    end
+  | SReopen r =>
+    match m_reopen M (s_st x r) with
+    | Some (st', i) => Some (mkS (set1 (s_st x) r st') (clr (s_cx x) r) (s_sn x), MIdx M i)
+    | None => None
+    end
+  | SHash r => Some (x, MPre M (m_pre_of M (s_st x r)))
+  end.
+
+Fixpoint srun_from (x : sst) (ops : list sop) : option sst :=
+  match ops with
+  | [] => Some x
+  | o :: rest => match sstep x o with Some (x', _) => srun_from x' rest | None => None end
+  end.
+Definition srun (ops : list sop) : option sst := srun_from sst0 ops.
+End Slots.
+
+(** update histories: of every replica, captured by every outstanding context, held by every image *)
+Record sgh := mkSG { h_st : N -> list entry; h_cx : N -> N -> option (list entry); h_sn : N -> N -> option (list entry) }.
+Definition sgh0 : sgh := mkSG (fun _ => []) (fun _ _ => None) (fun _ _ => None).
+
+Definition sgstep (has_prepare : bool) (g : sgh) (o : sop) : sgh :=
+  match o with
+  | SUpdate r ents => mkSG (set1 (h_st g) r (h_st g r ++ ents)) (h_cx g) (h_sn g)
+  | SPrepare r sl => mkSG (h_st g) (set2 (h_cx g) r sl (Some (h_st g r))) (h_sn g)
+  | SSave r sl =>
+    match (if has_prepare then h_cx g r sl else Some (h_st g r)) with
+    | Some h => mkSG (h_st g) (set2 (h_cx g) r sl None) (set2 (h_sn g) r sl (Some h))
+    | None => g
+    end
+  | SRecover r src sl =>
+    match h_sn g src sl with
+    | Some h => mkSG (set1 (h_st g) r h) (clr (h_cx g) r) (h_sn g)
+    | None => g
+    end
+  | SReopen r => mkSG (h_st g) (clr (h_cx g) r) (h_sn g)
+  | SLookup _ _ | SSync _ | SHash _ => g
+  end.
+Definition shist_sys (has_prepare : bool) (ops : list sop) : sgh := fold_left (sgstep has_prepare) ops sgh0.
+
+Definition sop_entries (o : sop) : list entry := match o with SUpdate _ ents => ents | _ => [] end.
+Definition sscript_entries (ops : list sop) : list entry := flat_map sop_entries ops.
+Definition utf8_sscript (sm : N) (ops : list sop) : Prop := forallb (entry_utf8 sm) (sscript_entries ops) = true.
+Definition any_sscript (ops : list sop) : Prop := True.
+
+(* after any script with any number of outstanding contexts and images: (1) every lookup returns the last value
+   written in the replica's update history (a recovery replacing it by the history of the image's prepare point);
+   (2) every image, whichever context it was saved from and whenever, stands for the state at ITS prepare point:
+   that state is the replay of the history captured there, and whoever recovers from the image gets exactly it *)
+Definition slots_spec (M : machine) (sm : N) (pre : list sop -> Prop) (kok : bytes -> Prop) : Prop :=
+  forall ops x, srun M ops = Some x -> pre ops ->
+    (forall r k, kok k ->
+       m_lookup M (s_st M x r) k = last_written sm (h_st (shist_sys (m_has_prepare M) ops) r) k) /\
+    (forall src sl img, s_sn M x src sl = Some img ->
+       exists h s0, h_sn (shist_sys (m_has_prepare M) ops) src sl = Some h /\ replay M h = Some s0 /\
+                    forall t s', m_recover M t img = Some s' -> s' = s0).
